@@ -177,7 +177,7 @@ def emit_tables(name, d, maxlen, partial=False):
         offsets.append(offsets[-1] + A ** n)
     refs = []
     steps_max = 0
-    stats = {"strings": 0, "sentences": 0}
+    stats = {"strings": 0, "sentences": 0, "cov_sentence3": False, "cov_incomplete2": False, "cov_inside3": False}
     for n in range(maxlen + 1):
         for idx in range(A ** n):
             toks = []
@@ -189,6 +189,9 @@ def emit_tables(name, d, maxlen, partial=False):
             refs.append("(%s,%d)" % ("true" if member else "false", fe))
             stats["strings"] += 1
             stats["sentences"] += 1 if member else 0
+            stats["cov_sentence3"] |= member and n >= 3
+            stats["cov_incomplete2"] |= (not member) and n >= 2 and fe == n
+            stats["cov_inside3"] |= (not member) and n >= 3 and fe + 1 < n
     out = []
     out.append("pub mod %s {" % name)
     out.append("    pub struct G;")
@@ -228,6 +231,16 @@ E4_CORPUS = [
     dict(name="g6_nest", file="g6_nest.rustemo", args=[], nq=5, nt=7),
     dict(name="g7_sugar", file="g7_sugar.rustemo", args=[], nq=4, nt=5),
     dict(name="g8_empty_mid", file="g8_empty_mid.rustemo", args=[], nq=5, nt=7),
+    dict(name="g9_pager_g1", file="/repo/tests/src/special/pager_g1/pager_g1.rustemo", args=[], nq=4, nt=5),
+    dict(name="g10_lalrpop768", file="/repo/tests/src/special/lalrpop768/lalrpop768.rustemo", args=[], nq=4, nt=5),
+    dict(name="g11_lalr_rr", file="/repo/tests/src/special/lalr_reduce_reduce_conflict/lang.rustemo", args=[], nq=3, nt=4),
+    dict(name="g12_follow_ctx", file="g12_follow_ctx.rustemo", args=[], nq=4, nt=5),
+    dict(name="g12_lalr", file="g12_follow_ctx.rustemo", args=["--table", "lalr"], nq=4, nt=5),
+    dict(name="g13_nullable_chain", file="g13_nullable_chain.rustemo", args=[], nq=4, nt=6),
+    dict(name="g14_unary_chain", file="g14_unary_chain.rustemo", args=[], nq=4, nt=6),
+    dict(name="g15_json_like", file="g15_json_like.rustemo", args=[], nq=4, nt=6),
+    dict(name="g16_if_end", file="g16_if_end.rustemo", args=[], nq=4, nt=6),
+    dict(name="g1_lalr", file="g1_expr.rustemo", args=["--table", "lalr"], nq=4, nt=5),
 ]
 
 
@@ -238,7 +251,7 @@ def generate_e4(tier):
     os.makedirs(gen, exist_ok=True)
     mods, harn, info = [], [], {}
     for c in E4_CORPUS:
-        d = vdump(os.path.join(VERIF, "corpus", c["file"]), c["args"])
+        d = vdump(os.path.join(VERIF, "corpus", c["file"]), c["args"])  # os.path.join keeps an absolute c["file"]
         if "error" in d or "panic" in d:
             raise GenError("compiler rejected corpus grammar %s: %s" % (c["name"], d))
         for n, tag in ((c["nq"], "q"), (c["nt"], "t")):
@@ -262,8 +275,11 @@ def generate_e4(tier):
             unwind = max(maxsteps + 3, 18)
             mods.append(text)
             harn.append(
-                "#[kani::proof]\n#[kani::unwind(%d)]\npub fn lr_%s() {\n    crate::drive::run::<crate::tables::%s::G, %d, %d>();\n}\n"
-                % (unwind, name, name, n, maxsteps + 1)
+                "#[kani::proof]\n#[kani::unwind(%d)]\npub fn lr_%s() {\n    let (member, n, first_err) = crate::drive::run::<crate::tables::%s::G, %d, %d>();\n%s    kani::cover!(true, \"end of harness reachable\");\n}\n"
+                % (unwind, name, name, n, maxsteps + 1,
+                   ("    kani::cover!(member && n >= 3, \"a sentence of length >= 3\");\n" if stats["cov_sentence3"] else "")
+                   + ("    kani::cover!(!member && n >= 2 && first_err == n, \"incomplete input: error at the end\");\n" if stats["cov_incomplete2"] else "")
+                   + ("    kani::cover!(!member && n >= 3 && first_err + 1 < n, \"error inside the input\");\n" if stats["cov_inside3"] else ""))
             )
             stats.update({"maxlen": n, "unwind": unwind, "grammar": c["file"], "args": c["args"]})
             info[name] = stats
